@@ -1103,8 +1103,6 @@ func (v *Validators) SetValidators(vals []*Validator) {
 }
 
 func (v *Validators) IsValidator(pubkey types.Pubkey) bool {
-	v.lock.RLock()
-	defer v.lock.RUnlock()
 	for _, val := range v.GetValidators() {
 		if val.PubKey == pubkey {
 			return true
